@@ -255,6 +255,9 @@ func main() {
 		for _, v := range o.viol {
 			res.Violate(v.id, v.what, o.c)
 		}
+		if tf := os.Getenv("C13_TRACE"); tf != "" {
+			os.WriteFile(tf, []byte(strings.Join(o.lines, "\n")+"\n"), 0o644)
+		}
 		if drv != nil {
 			rej, err := askModel(drv, o.lines)
 			if err != nil {
@@ -325,16 +328,23 @@ func main() {
 	}
 	t0 := time.Now()
 	// 1. forced families (deterministic, exhaustive over small thread orders)
+	only := os.Getenv("C13_ONLY")
 	for _, c := range forcedCases(fl.Tier == "thorough" || fl.Search) {
+		if only != "" && c.Prim != only {
+			continue
+		}
 		steps := c.Steps
 		c.Steps = nil
 		do(c, stored(steps))
 	}
 	// 2. seeded random schedules with parks, cancellations and deletes
 	for _, prim := range []string{"fifomutex", "fifomap", "cmap", "context", "outer"} {
+		if only != "" && prim != only {
+			continue
+		}
 		nsc := 120 * budget
 		if prim == "outer" {
-			nsc = 25 * budget
+			nsc = 60 * budget
 		}
 		for i := 0; i < nsc; i++ {
 			cr := rng.Fork()
@@ -349,7 +359,11 @@ func main() {
 				c.GraceMs = cr.Range(2, 5)
 				c.N = cr.Range(2, 5)
 			}
-			do(c, randomGen(cr, cr.Range(8, 40)))
+			steps := cr.Range(8, 40)
+			if prim == "outer" {
+				steps = cr.Range(6, 22)
+			}
+			do(c, randomGen(cr, steps))
 		}
 	}
 	res.Exhaustive = false
